@@ -31,6 +31,18 @@ STRENGTHENING = {
     'C13_b_m2': 'decode the parent again right after a DNA was derived from it (added from the description, before the first run)',
     'C14_b_m2': '6 global random states x 3 applications of one operator instance (made for the recombinator finding)',
     'C17_b_m2': 'dict-valued view options with a deep-merge model (added from the description, before the first run)',
+    'C02_b_m1': 'every two-path batch rebind on lists of 11-12 elements (two-digit indices)',
+    'C02_b_m2': 'ordered three-path batches: write below a container, replace it, write below it again',
+    'C06_b_m1': 'objects / typed dicts with free-form keys inserted in different orders',
+    'C06_b_m2': 'values reached by mutation after being hashed once (notifying and non-notifying writes) next to their constructed twins',
+    'C07_b_m2': 'mutable plain leaves two levels below a tuple; leaf sharing is checked through tuples / plain containers',
+    'C08_b_m2': 'invariant: no operation changes the protection flags of a surviving node; typed containers with accessors off',
+    'C12_b_m1': 'producers must not modify their input (values and bound decision points of every node)',
+    'C12_b_m2': 'lookups by decision point / id (whole multi-choices too) repeated after the name table was built',
+    'C18_b_m1': 'binding histories (set / unset / del / nested / batched rebinds), four call forms after every step',
+    'C18_b_m2': 'same (batches mixing a nested path with a top-level argument)',
+    'C19_b_m2': 'explicit argument intersected with an enclosing scope, both directions',
+    'C20_b_m1': 'callable include_keys / exclude_keys (keep-all differential, filter by last key)',
 }
 
 
